@@ -6,13 +6,21 @@ from vlib import hexs, unhex
 META = dict(
     property_id='C04',
     design_ref='DESIGN.md section 4, C04',
-    technique='Coq proof about an executable model of the tokeniser/parser/nesting/white-list/URI-parser pipeline + extracted-model correspondence + implementation-only oracle',
+    technique='Coq proof about an executable model of the encoding-validation/tokeniser/parser/nesting/white-list/URI-parser pipeline (encoding validators concrete, UTF-8 decoder regenerated from source) + extracted-model correspondence + implementation-only oracle with an independent well-formedness judge',
     level_text=('Theorems in coq/C04/Props.v (docs/C04.md lists them), for all byte strings and all rule sets (flags + arbitrary tag / entity / attribute '
                 'functions), both filtering methods, xhtml and html: filter output = concatenation of white-listed token texts and text without < > and with & '
                 'only in 8 entity spellings (filter_shape, no_stray_markup, token_whitelisted with an explicit grammar of tags/attributes/values); '
-                'validate == flag of validate_and_filter, valid input unchanged, validation implies well-formedness in the encoding; stability proved in '
-                'full: validate(filter x) = true and filter idempotent (premises on the rule set proved for every API-built rule set; premises on the abstract '
-                'encoding validators / conversions stated); URI validators (uri_parser modelled): accepted values are URI characters only and a value with a '
+                'validate == flag of validate_and_filter, valid input unchanged; stability proved in '
+                'full: validate(filter x) = true and filter idempotent (premises on the rule set proved for every API-built rule set). '
+                'Encoding clause: the encoding validators are concrete in the model (coq/C04/DefsE.v selects, by the encoding name of the rule set, the UTF-8 '
+                'decoder model / single byte validator models of coq/C14/Defs.v, as src/encoding.cpp does); validate_implies_wellformed_utf8: for every '
+                'name that normalises to utf8, whatever validate accepts is a sequence of RFC 3629 UTF8-char (ABNF as an inductive predicate) = the '
+                'concatenated shortest-form encodings of scalar values <= U+10FFFF without surrogates, none a C0 control other than tab/LF/CR, DEL or a C1 '
+                'control - unconditionally; the same for every filter output (filter_output_wellformed_utf8, concrete_utf8_filter), with verdict agreement, '
+                'identity on valid input and stability, with no premise about the validators; single byte code pages: accepted text and filter output consist of '
+                'bytes the table accepts, no C0/DEL, no C1 for ISO-8859 (validate_implies_wellformed_single_byte, single_byte_filter_validates); names '
+                'without a built-in validator: accepted text converts to well-formed UTF-8 (the iconv conversions stay abstract functions). '
+                'URI validators (uri_parser modelled): accepted values are URI characters only and a value with a '
                 'browser-visible scheme is accepted only if the scheme expression matches it, the relative validator accepts no scheme, the absolute-only '
                 'validator accepts exactly the values scheme ":" hier-part [?query] [#fragment] whose scheme the scheme expression matches '
                 '(absolute_uri_requires_scheme, absolute_uri_validator_exact, also stated through the rule set for an attribute registered with such a '
@@ -21,14 +29,19 @@ META = dict(
                 'integer attributes are -?digit+, boolean attributes name="name" (xhtml) / valueless (html). '
                 'The model is tied to src/xss.cpp by running the extracted model '
                 'and the real validate / validate_and_filter_if_invalid / filter (rule sets built through the public API and the JSON constructor) on the '
-                'same cases, with PCRE, the encoding validators and iconv answered by the real code; character classes, escape table, code point test, '
+                'same cases, with PCRE and iconv answered by the real code and the encoding validators computed by the model itself; character classes, escape table, code point test, '
                 'entity spellings, the integer test, uri_parser leafs, the scheme character test, the alternatives of pchar / query / segment / reg_name / '
-                'userinfo, the entry points parse / parse_full and the control skeleton of the composite URI rules, and the c_string comparator are '
-                'regenerated from the source (cxx2v / clang AST) on every run and proved equal to the model leafs (Link.v).'),
+                'userinfo, the entry points parse / parse_full and the control skeleton of the composite URI rules, the c_string comparator, and the leafs '
+                'utf::valid / utf8::is_trail / trail_length / width of the UTF-8 decoder (private/utf_iterator.h) are '
+                'regenerated from the source (cxx2v / clang AST) on every run and proved equal to the model leafs (Link.v, LinkE.v). The oracle judges '
+                'well-formedness in the declared encoding independently of the implementation (python strict decoders / code page tables + control character rule) '
+                'for whatever validate accepts and for every filter output.'),
     level_note=('Trusted: Coq kernel + vm_compute; cxx2v and clang AST; ExtrOcamlBasic extraction; hand model of the loops of src/xss.cpp '
                 'incl. the composite rules of class uri_parser (behaviour tied by correspondence; their control skeleton by a literal comparison in Link.v); '
-                'PCRE is an abstract function; encoding validators and iconv '
-                'conversions are abstract (C14).'),
+                'hand model of utf8::next (switch with fall-through), validate_or_filter and the validators_set table (coq/C14/Defs.v, owned by C14, imported read-only; '
+                'tied here by correspondence on encoding boundary material: boundary code points in shortest and every over-long form, truncations, stray and bad '
+                'trail bytes, a grid of lead/second/trail byte classes, every byte under every single byte validator); '
+                'PCRE is an abstract function; the iconv conversions for names without a built-in validator are abstract.'),
 )
 
 GEN = {
@@ -42,6 +55,12 @@ GEN = {
     # static helpers of class uri_parser
     'Gen_uri': dict(src='src/xss.cpp',
                     functions=[('is_digit', 'g_uri_isdigit'), ('is_alapha', 'g_uri_isalpha'), ('is_hex', 'g_uri_ishex')]),
+    # the leaf functions of cppcms::utf8::next (private/utf_iterator.h), the decoder behind encoding::valid("UTF-8") and
+    # validate_or_filter that xss::validate / validate_and_filter_if_invalid call; translated from src/encoding.cpp, which
+    # instantiates them (the same leafs C14 ties, regenerated here under C04's own name so that this check stands alone)
+    'Gen_C04utf': dict(src='src/encoding.cpp',
+                       functions=[('valid', 'g_c04_utf_valid', 'utf::valid'), ('is_trail', 'g_c04_is_trail', 'utf8::is_trail'),
+                                  ('trail_length', 'g_c04_trail_length', 'utf8::trail_length'), ('width', 'g_c04_width', 'utf8::width')]),
 }
 
 DEFAULT_SCHEMES = '(http|https|ftp|mailto|news|nntp)'
@@ -395,6 +414,601 @@ def gen_extra():
         with vlib.Lock('gen-Gen_xss2'):
             vlib.write_if_changed(out, '(* translator failed: %s *)\nDefinition broken : False := I.\n' % str(e).replace('*)', '* )').replace('"', "'"))
         return [('Gen_xss2', str(e))]
+
+
+def gen_next():
+    """cppcms::utf8::next (private/utf_iterator.h, the instantiation for char const * that src/encoding.cpp uses): every expression of its
+    body (conditions, initialisers, assigned values) translated with the cxx2v expression translator into coq/gen/Gen_C04next.v as a function of
+    (html, lead, trail_size, c, tmp), plus the statement skeleton of the body in source order as a list of strings that refers to these
+    expressions by name (reads of the input `*p++` = read, tests `p==e` = eof).  Returns [(name, error)]."""
+    import cxx2v, json
+    out = os.path.join(vlib.COQ, 'gen', 'Gen_C04next.v')
+    src = os.path.join(vlib.REPO, 'src/encoding.cpp')
+    U = cxx2v.Unsupported
+    try:
+        objs = cxx2v.run_clang(src, 'utf8::next', vlib.repo_incs(), 'c++11')
+        insts = []
+
+        def find(n):
+            if not isinstance(n, dict):
+                return
+            if n.get('kind') == 'FunctionDecl' and n.get('name') == 'next' and 'const char *&' in n.get('type', {}).get('qualType', '') \
+                    and any(c.get('kind') == 'CompoundStmt' for c in n.get('inner', [])):
+                insts.append(n)
+            for c in n.get('inner', []) or []:
+                find(c)
+        for o in objs:
+            find(o)
+        if len(insts) != 1:
+            raise U('utf8::next<char const *>: %d instantiations with a body' % len(insts))
+        fd = insts[0]
+        tr = cxx2v.Tr('', {'is_trail': 'g_c04_is_trail', 'trail_length': 'g_c04_trail_length', 'width': 'g_c04_width', 'valid': 'g_c04_utf_valid'}, {})
+        tr.consts = {}
+        names = {}
+        for c in fd.get('inner', []):
+            if c.get('kind') == 'ParmVarDecl' and c.get('name'):
+                names[c['id']] = c['name']
+        VARS = ('html', 'lead', 'trail_size', 'c', 'tmp')
+        exprs, skel = [], []
+
+        def strip(n):
+            while isinstance(n, dict) and n.get('kind') in ('ParenExpr', 'ImplicitCastExpr', 'ExprWithCleanups', 'CStyleCastExpr') and n.get('inner'):
+                n = n['inner'][0]
+            return n
+
+        def refname(n):
+            n = strip(n)
+            if n.get('kind') == 'DeclRefExpr':
+                return names.get(n['referencedDecl']['id'], n['referencedDecl'].get('name'))
+            return None
+
+        def is_read(n):
+            n = strip(n)
+            if n.get('kind') == 'UnaryOperator' and n.get('opcode') == '*':
+                s_ = strip(n['inner'][0])
+                return s_.get('kind') == 'UnaryOperator' and s_.get('opcode') == '++' and s_.get('isPostfix') and refname(s_['inner'][0]) == 'p'
+            return False
+
+        def is_eof(n):
+            n = strip(n)
+            return n.get('kind') == 'BinaryOperator' and n.get('opcode') == '==' and [refname(x) for x in n['inner']] == ['p', 'e']
+
+        def named(n, want_bool):
+            for vid, nm in names.items():
+                if nm in VARS:
+                    tr.ids[vid] = nm
+            code = tr.expr(n)
+            isb = cxx2v.tyinfo(n['type'])[0] == 'b'
+            if isb != want_bool:
+                raise U('utf8::next: expression of unexpected type')
+            for i, (c0, b0) in enumerate(exprs):
+                if c0 == code:
+                    return 'e%d' % i
+            exprs.append((code, isb))
+            return 'e%d' % (len(exprs) - 1)
+
+        def ser(st):
+            k = st.get('kind')
+            if k == 'CompoundStmt':
+                for c in st.get('inner', []) or []:
+                    ser(c)
+            elif k == 'IfStmt':
+                inner = st['inner']
+                if len(inner) != 2:
+                    raise U('utf8::next: if with else')
+                skel.append('if %s {' % ('eof' if is_eof(inner[0]) else named(inner[0], True)))
+                ser(inner[1])
+                skel.append('}')
+            elif k == 'ReturnStmt':
+                r = refname(st['inner'][0])
+                if r is None:
+                    raise U('utf8::next: return of an expression')
+                skel.append('ret %s' % r)
+            elif k == 'DeclStmt':
+                for vd in st['inner']:
+                    if vd.get('kind') != 'VarDecl':
+                        raise U('utf8::next: declaration of kind %s' % vd.get('kind'))
+                    names[vd['id']] = vd['name']
+                    init = [c for c in vd.get('inner', []) if isinstance(c, dict)]
+                    if not init:
+                        skel.append('decl %s' % vd['name'])
+                    elif is_read(init[0]):
+                        skel.append('%s := read' % vd['name'])
+                    else:
+                        skel.append('%s := %s' % (vd['name'], named(init[0], False)))
+            elif k == 'BinaryOperator' and st.get('opcode') == '=':
+                lhs = refname(st['inner'][0])
+                if lhs is None:
+                    raise U('utf8::next: assignment to something that is not a variable')
+                skel.append('%s := %s' % (lhs, 'read' if is_read(st['inner'][1]) else named(st['inner'][1], False)))
+            elif k == 'SwitchStmt':
+                skel.append('switch %s {' % refname(st['inner'][0]))
+                ser(st['inner'][1])
+                skel.append('}')
+            elif k == 'CaseStmt':
+                skel.append('case %d' % cxx2v.const_int(st['inner'][0]))
+                ser(st['inner'][-1])
+            elif k in ('UsingDecl', 'NullStmt'):
+                pass
+            else:
+                raise U('utf8::next: statement of kind %s' % k)
+        body = [c for c in fd['inner'] if c.get('kind') == 'CompoundStmt'][0]
+        for st in body.get('inner', []) or []:
+            if st.get('kind') == 'DeclStmt' and all(c.get('kind') == 'UsingDecl' for c in st.get('inner', [])):
+                continue
+            ser(st)
+        for t in skel:
+            if not re.fullmatch(r'[A-Za-z0-9_ :={}]+', t):
+                raise U('utf8::next: unexpected skeleton text %r' % t)
+        lines = ['(* GENERATED by checks/C04.py (cxx2v expression translator) from cppcms::utf8::next<char const *> as instantiated by %s -- do not edit *)' % src,
+                 'From Coq Require Import ZArith List Bool String.', 'From CppcmsV Require Import Base.CSem gen.Gen_C04utf.',
+                 'Local Open Scope Z_scope.', 'Import ListNotations.', '']
+        for i, (code, isb) in enumerate(exprs):
+            lines.append('Definition g_c04_next_e%d (html : bool) (lead trail_size c tmp : Z) : %s :=\n  %s.\n' % (i, 'bool' if isb else 'Z', code))
+        lines.append('Definition g_c04_next_skeleton : list string :=\n  [%s].\n' % ';\n   '.join('"%s"%%string' % t for t in skel))
+        txt, err = '\n'.join(lines) + '\n', []
+    except cxx2v.Unsupported as e:
+        txt = '(* translator failed: %s *)\nDefinition broken : False := I.\n' % str(e).replace('*)', '* )').replace('"', "'")
+        err = [('Gen_C04next', str(e))]
+    with vlib.Lock('gen-Gen_C04next'):
+        vlib.write_if_changed(out, txt)
+    return err
+
+
+SB_VALIDATORS = [  # template name in private/encoding_validators.h -> generated Coq name
+    ('ascii_valid', 'g_c04_sb_ascii'), ('iso_8859_1_2_4_5_9_10_13_14_15_16_valid', 'g_c04_sb_iso'),
+    ('iso_8859_3_valid', 'g_c04_sb_iso3'), ('iso_8859_6_valid', 'g_c04_sb_iso6'), ('iso_8859_7_valid', 'g_c04_sb_iso7'),
+    ('iso_8859_8_valid', 'g_c04_sb_iso8'), ('iso_8859_11_valid', 'g_c04_sb_iso11'),
+    ('windows_1250_valid', 'g_c04_sb_1250'), ('windows_1251_valid', 'g_c04_sb_1251'), ('windows_1252_valid', 'g_c04_sb_1252'),
+    ('windows_1253_valid', 'g_c04_sb_1253'), ('windows_1255_valid', 'g_c04_sb_1255'),   # windows_1254_valid is never instantiated: not in the table
+    ('windows_1256_valid', 'g_c04_sb_1256'), ('windows_1257_valid', 'g_c04_sb_1257'), ('windows_1258_valid', 'g_c04_sb_1258'),
+    ('koi8_valid', 'g_c04_sb_koi8'),
+]
+
+
+def gen_enc():
+    """coq/gen/Gen_C04enc.v from src/encoding.cpp of the checked tree:
+    (1) for each single byte validator of private/encoding_validators.h (instantiation for char const *): the body of its loop
+        while(p!=e){ count++; unsigned c=(unsigned char)*p++; ... continue; ... return false; ... } return true;
+        as a predicate byte -> bool (true: the loop goes on, false: the function returns false) - the loop shape itself is checked;
+    (2) the validators_set table: the assignments predefined_[<name>] = <validator> of the constructor, in execution order, as a
+        list of (name, name of the validator template).  Returns [(name, error)]."""
+    import cxx2v, json
+    U = cxx2v.Unsupported
+    out = os.path.join(vlib.COQ, 'gen', 'Gen_C04enc.v')
+    src = os.path.join(vlib.REPO, 'src/encoding.cpp')
+
+    def strip(n):
+        while isinstance(n, dict) and n.get('kind') in ('ParenExpr', 'ImplicitCastExpr', 'ExprWithCleanups', 'MaterializeTemporaryExpr',
+                                                          'CXXBindTemporaryExpr', 'CXXFunctionalCastExpr', 'CStyleCastExpr') and n.get('inner'):
+            n = n['inner'][0]
+        return n
+
+    class PredTr(cxx2v.Tr):
+        byte = None
+
+        def expr(self, n):
+            if n['kind'] == 'UnaryOperator' and n.get('opcode') == '*':
+                s_ = strip(n['inner'][0])
+                if s_['kind'] == 'UnaryOperator' and s_.get('opcode') == '++' and s_.get('isPostfix') \
+                        and strip(s_['inner'][0])['kind'] == 'DeclRefExpr' and tuple(cxx2v.tyinfo(n['type'])) == ('s', 8):
+                    if self.byte is None:
+                        raise U('second read of the input in one loop iteration')
+                    b, self.byte = self.byte, None
+                    return b
+            return super().expr(n)
+
+        def stmts(self, ss, brk=None, void=False):
+            if not ss and brk is None:
+                return 'true'
+            if ss:
+                k = ss[0]['kind']
+                if k == 'ContinueStmt':
+                    return 'true'
+                if k == 'ReturnStmt':
+                    if self.expr(ss[0]['inner'][0]) != 'false':
+                        raise U('return of something other than false inside a validator loop')
+                    return 'false'
+            return super().stmts(ss, brk, void)
+
+    def translate_validator(fd, coqname):
+        body = [c for c in fd['inner'] if c['kind'] == 'CompoundStmt'][0]
+        top = body.get('inner', [])
+        if len(top) != 2 or top[0]['kind'] != 'WhileStmt' or top[1]['kind'] != 'ReturnStmt' or strip(top[1]['inner'][0]).get('value') is not True:
+            raise U('%s: not of the form while(...){...} return true;' % coqname)
+        cond, lbody = top[0]['inner'][0], top[0]['inner'][-1]
+        if cond['kind'] != 'BinaryOperator' or cond['opcode'] != '!=' or \
+                [strip(x).get('referencedDecl', {}).get('name') for x in cond['inner']] != ['p', 'e']:
+            raise U('%s: loop condition is not p!=e' % coqname)
+        tr = PredTr('', {}, {})
+        tr.consts = {}
+        ss = tr.flatten(lbody)
+        first = ss[0] if ss else {}
+        if first.get('kind') != 'UnaryOperator' or first.get('opcode') != '++' or \
+                strip(first['inner'][0]).get('referencedDecl', {}).get('name') != 'count':
+            raise U('%s: loop body does not start with count++' % coqname)
+        tr.byte = '(wraps 8 byte)'
+        code = tr.stmts(ss[1:])
+        if tr.byte is not None:
+            raise U('%s: loop body never reads *p++' % coqname)
+        return 'Definition %s (byte : Z) : bool :=\n  %s.\n' % (coqname, code)
+
+    try:
+        lines = ['(* GENERATED by checks/C04.py (cxx2v) from private/encoding_validators.h and the validators_set constructor as compiled into %s -- do not edit *)' % src,
+                 'From Coq Require Import ZArith List Bool String.', 'From CppcmsV Require Import Base.CSem.',
+                 'Local Open Scope Z_scope.', 'Import ListNotations.', '']
+        objs = cxx2v.run_clang(src, '_valid', vlib.repo_incs(), 'c++11')
+        insts = {}
+
+        def find(n):
+            if not isinstance(n, dict):
+                return
+            if n.get('kind') == 'FunctionDecl' and 'const char *' in n.get('type', {}).get('qualType', '') \
+                    and any(c.get('kind') == 'CompoundStmt' for c in n.get('inner', [])):
+                insts.setdefault(n.get('name'), n)
+            for c in n.get('inner', []) or []:
+                find(c)
+        for o in objs:
+            find(o)
+        for cxx, coq in SB_VALIDATORS:
+            if cxx not in insts:
+                raise U('instantiation of %s for char const * not found' % cxx)
+            lines.append(translate_validator(insts[cxx], coq))
+        # the table
+        objs = cxx2v.run_clang(src, 'validators_set::validators_set', vlib.repo_incs(), 'c++11')
+        ctors = [o for o in objs if o.get('kind') == 'CXXConstructorDecl' and any(c.get('kind') == 'CompoundStmt' for c in o.get('inner', []))]
+        if len(ctors) != 1:
+            raise U('validators_set constructor: %d definitions' % len(ctors))
+        body = [c for c in ctors[0]['inner'] if c.get('kind') == 'CompoundStmt'][0]
+        varinit, table = {}, []
+
+        def fname(n):
+            """name of the validator a value expression denotes"""
+            n = strip(n)
+            k = n.get('kind')
+            if k == 'UnaryOperator' and n.get('opcode') == '&':
+                d = strip(n['inner'][0])
+                if d.get('kind') == 'DeclRefExpr' and d['referencedDecl'].get('kind') == 'FunctionDecl':
+                    return d['referencedDecl']['name']
+            if k == 'DeclRefExpr':
+                if d_ := varinit.get(n['referencedDecl']['id']):
+                    return d_
+                if n['referencedDecl'].get('kind') == 'FunctionDecl':
+                    return n['referencedDecl']['name']
+            if k == 'BinaryOperator' and n.get('opcode') == '=':
+                return assign(n)
+            raise U('validators_set: value of kind %s' % k)
+
+        def keyname(n):
+            n = strip(n)
+            if n.get('kind') != 'CXXOperatorCallExpr':
+                raise U('validators_set: assignment to something that is not predefined_[...]')
+            callee = strip(n['inner'][0])
+            if callee.get('referencedDecl', {}).get('name') != 'operator[]' or strip(n['inner'][1]).get('name') != 'predefined_':
+                raise U('validators_set: assignment to something that is not predefined_[...]')
+            lits = []
+
+            def w(x):
+                if not isinstance(x, dict):
+                    return
+                if x.get('kind') == 'StringLiteral':
+                    lits.append(json.loads(x['value']))
+                for c in x.get('inner', []) or []:
+                    w(c)
+            w(n['inner'][2])
+            if len(lits) != 1:
+                raise U('validators_set: key is not one string literal')
+            return lits[0]
+
+        def assign(n):
+            v = fname(n['inner'][1])          # right operand first (it may be an assignment itself)
+            table.append((keyname(n['inner'][0]), v))
+            return v
+        for st in body.get('inner', []) or []:
+            st0 = strip(st)
+            if st0.get('kind') == 'DeclStmt':
+                for vd in st0['inner']:
+                    init = [c for c in vd.get('inner', []) if isinstance(c, dict)]
+                    if vd.get('kind') != 'VarDecl' or not init:
+                        raise U('validators_set: unexpected declaration')
+                    varinit[vd['id']] = fname(init[0])
+            elif st0.get('kind') == 'BinaryOperator' and st0.get('opcode') == '=':
+                assign(st0)
+            else:
+                raise U('validators_set: statement of kind %s' % st0.get('kind'))
+        # (3) the per character step of the name comparator: encodings_comparator::next, loop  while(*p!=0){ char c=*p++; ... return <char>; ... } return 0;
+        #     -> byte -> Z (the character the comparator sees, -1: the loop moves on to the next byte)
+        class StepTr(cxx2v.Tr):
+            def stmts(self, ss, brk=None, void=False):
+                if not ss and brk is None:
+                    return '(-1)'
+                return super().stmts(ss, brk, void)
+        objs3 = cxx2v.run_clang(src, 'encodings_comparator::next', vlib.repo_incs(), 'c++11')
+        nds = cxx2v.find_decl(objs3, 'CXXMethodDecl', 'next', lambda n: any(c.get('kind') == 'CompoundStmt' for c in n.get('inner', [])))
+        if not nds:
+            raise U('encodings_comparator::next not found')
+        nfd = nds[0]
+        loops = []
+        cxx2v.find_loops(nfd, loops)
+        if len(loops) != 1:
+            raise U('encodings_comparator::next: expected exactly one loop')
+        cond = loops[0]['inner'][0]
+        okc = cond['kind'] == 'BinaryOperator' and cond['opcode'] == '!=' and strip(cond['inner'][1]).get('kind') == 'IntegerLiteral' \
+            and strip(cond['inner'][1]).get('value') == '0' and strip(cond['inner'][0]).get('kind') == 'UnaryOperator' and strip(cond['inner'][0]).get('opcode') == '*'
+        if not okc:
+            raise U('encodings_comparator::next: loop condition is not *p!=0')
+        trs = StepTr('', {}, {})
+        trs.consts = {}
+        ss = trs.flatten(loops[0]['inner'][-1])
+        vd = ss[0]['inner'][0] if ss and ss[0]['kind'] == 'DeclStmt' else {}
+        init = strip(vd.get('inner', [{}])[0]) if vd.get('inner') else {}
+        if vd.get('kind') != 'VarDecl' or tuple(cxx2v.tyinfo(vd['type'])) != ('s', 8) or init.get('opcode') != '*':
+            raise U('encodings_comparator::next: loop body does not start with char c=*p++')
+        nm_ = trs.fresh(vd['name'])
+        trs.ids[vd['id']] = nm_
+        code = trs.stmts(ss[1:])
+        nbody = [c for c in nfd['inner'] if c['kind'] == 'CompoundStmt'][0]['inner']
+        if nbody[-1]['kind'] != 'ReturnStmt' or strip(nbody[-1]['inner'][0]).get('value') != '0':
+            raise U('encodings_comparator::next: function does not end with return 0')
+        lines.append('Definition g_c04_enc_name_step (byte : Z) : Z :=\n  let %s := wraps 8 byte in %s.\n' % (nm_, code))
+        for k_, v_ in table:
+            if not re.fullmatch(r'[A-Za-z0-9_\-]+', k_) or not re.fullmatch(r'[A-Za-z0-9_]+', v_):
+                raise U('validators_set: unexpected text %r / %r' % (k_, v_))
+        lines.append('Definition g_c04_enc_table : list (list Z * string) :=\n  [%s].\n' % ';\n   '.join(
+            '([%s], "%s"%%string)' % ('; '.join(str(ord(ch)) for ch in k_), v_) for k_, v_ in table))
+        txt, err = '\n'.join(lines) + '\n', []
+    except cxx2v.Unsupported as e:
+        txt = '(* translator failed: %s *)\nDefinition broken : False := I.\n' % str(e).replace('*)', '* )').replace('"', "'")
+        err = [('Gen_C04enc', str(e))]
+    with vlib.Lock('gen-Gen_C04enc'):
+        vlib.write_if_changed(out, txt)
+    return err
+
+
+XSS_SKELETON = {}
+
+
+def gen_control():
+    """coq/gen/Gen_C04ctl.v: the statement skeleton (control structure, calls, constants - expressions rendered from the AST in a normalised
+    textual form) of the glue around the decoder that the model describes by hand: utf8_valid, utf8::validate, validate_or_filter_utf8,
+    validate_or_filter_single_byte_charset, encoding::valid, validate_or_filter, is_ascii_compatible, is_utf8, validators_set::get
+    (private/encoding_validators.h, private/utf_iterator.h, src/encoding.cpp) and the encoding prologues of xss::validate and
+    xss::validate_and_filter_if_invalid (src/xss.cpp: everything before the tokeniser is called, and the conversion back at the end).
+    A fingerprint: coq/C04/LinkC.v compares it with the literal from which the hand model was written.  Returns [(name, error)]."""
+    import cxx2v, json
+    U = cxx2v.Unsupported
+    out = os.path.join(vlib.COQ, 'gen', 'Gen_C04ctl.v')
+    enc_src = os.path.join(vlib.REPO, 'src/encoding.cpp')
+    xss_src = os.path.join(vlib.REPO, 'src/xss.cpp')
+    TRANSPARENT = ('ParenExpr', 'ImplicitCastExpr', 'ExprWithCleanups', 'MaterializeTemporaryExpr', 'CXXBindTemporaryExpr', 'ConstantExpr')
+
+    def rx(n):
+        while isinstance(n, dict) and n.get('kind') in TRANSPARENT and n.get('inner'):
+            n = n['inner'][0]
+        k = n.get('kind')
+        inner = [c for c in (n.get('inner') or []) if isinstance(c, dict)]
+        if k == 'IntegerLiteral':
+            return str(n['value'])
+        if k == 'CharacterLiteral':
+            return "chr%d" % n['value']
+        if k == 'StringLiteral':
+            return 'str<%s>' % json.loads(n['value'])
+        if k == 'CXXBoolLiteralExpr':
+            return 'true' if n['value'] else 'false'
+        if k == 'CXXNullPtrLiteralExpr' or k == 'GNUNullExpr':
+            return 'null'
+        if k == 'CXXThisExpr':
+            return 'this'
+        if k == 'DeclRefExpr':
+            return n['referencedDecl'].get('name', '?')
+        if k == 'MemberExpr':
+            b = rx(inner[0]) if inner else 'this'
+            return n.get('name', '?') if b == 'this' else '%s.%s' % (b, n.get('name', '?'))
+        if k in ('CallExpr', 'CXXMemberCallExpr'):
+            return '%s(%s)' % (rx(inner[0]), ','.join(rx(a) for a in inner[1:] if a.get('kind') != 'CXXDefaultArgExpr'))
+        if k == 'CXXOperatorCallExpr':
+            return '%s(%s)' % (rx(inner[0]), ','.join(rx(a) for a in inner[1:]))
+        if k in ('BinaryOperator', 'CompoundAssignOperator'):
+            return '(%s %s %s)' % (rx(inner[0]), n['opcode'], rx(inner[1]))
+        if k == 'UnaryOperator':
+            return '(%s%s)' % ((rx(inner[0]), n['opcode']) if n.get('isPostfix') else (n['opcode'], rx(inner[0])))
+        if k == 'ConditionalOperator':
+            return '(%s ? %s : %s)' % tuple(rx(a) for a in inner)
+        if k in ('CStyleCastExpr', 'CXXFunctionalCastExpr', 'CXXStaticCastExpr'):
+            return 'cast<%s>(%s)' % (n['type']['qualType'], rx(inner[0]))
+        if k in ('CXXConstructExpr', 'CXXTemporaryObjectExpr'):
+            args = [a for a in inner if a.get('kind') != 'CXXDefaultArgExpr']
+            if len(args) == 1:
+                return rx(args[0])
+            return 'new<%s>(%s)' % (n['type']['qualType'].replace('std::', ''), ','.join(rx(a) for a in args))
+        if k == 'ArraySubscriptExpr':
+            return '%s[%s]' % (rx(inner[0]), rx(inner[1]))
+        if k == 'CXXDefaultArgExpr':
+            return 'default'
+        if k == 'CXXNewExpr':
+            return 'new(%s)' % ','.join(rx(a) for a in inner)
+        if k == 'CXXDeleteExpr':
+            return 'delete(%s)' % ','.join(rx(a) for a in inner)
+        if k == 'UnaryExprOrTypeTraitExpr':
+            return '%s(%s)' % (n.get('name', 'sizeof'), n.get('argType', {}).get('qualType', '') or ','.join(rx(a) for a in inner))
+        if k == 'InitListExpr':
+            return '{%s}' % ','.join(rx(a) for a in inner)
+        if k == 'ImplicitValueInitExpr':
+            return 'zero'
+        if k == 'CXXThrowExpr':
+            return 'throw(%s)' % ','.join(rx(a) for a in inner)
+        raise U('control skeleton: expression of kind %s' % k)
+
+    def sk(st, out_):
+        k = st.get('kind')
+        inner = [c for c in (st.get('inner') or []) if isinstance(c, dict)]
+        if k == 'CompoundStmt':
+            for c in inner:
+                sk(c, out_)
+        elif k == 'NullStmt':
+            pass
+        elif k == 'IfStmt':
+            out_.append('if %s {' % rx(inner[0]))
+            sk(inner[1], out_)
+            if len(inner) > 2:
+                out_.append('} else {')
+                sk(inner[2], out_)
+            out_.append('}')
+        elif k == 'WhileStmt':
+            out_.append('while %s {' % rx(inner[0]))
+            sk(inner[-1], out_)
+            out_.append('}')
+        elif k == 'ForStmt':
+            parts = st.get('inner')
+            init, cond, inc, body = parts[0], parts[2], parts[3], parts[4]
+            hdr = []
+            if init:
+                sk(init, hdr)
+            out_.append('for %s ; %s ; %s {' % (' , '.join(hdr), rx(cond) if cond else '', rx(inc) if inc else ''))
+            sk(body, out_)
+            out_.append('}')
+        elif k == 'ReturnStmt':
+            out_.append('return %s' % (rx(inner[0]) if inner else ''))
+        elif k == 'DeclStmt':
+            for vd in inner:
+                if vd.get('kind') in ('UsingDecl', 'UsingDirectiveDecl', 'TypedefDecl', 'NamespaceAliasDecl'):
+                    continue
+                if vd.get('kind') != 'VarDecl':
+                    raise U('control skeleton: declaration of kind %s' % vd.get('kind'))
+                init = [c for c in (vd.get('inner') or []) if isinstance(c, dict)]
+                t = vd['type']['qualType'].replace('std::', '')
+                out_.append('var %s %s%s' % (t, vd['name'], (' = ' + rx(init[0])) if init else ''))
+        elif k in ('BreakStmt', 'ContinueStmt'):
+            out_.append(k[:-4].lower())
+        elif k == 'CXXTryStmt':
+            out_.append('try {')
+            sk(inner[0], out_)
+            for h in inner[1:]:
+                hin = [c for c in (h.get('inner') or []) if isinstance(c, dict)]
+                ex_t = hin[0]['type']['qualType'].replace('std::', '') if len(hin) > 1 and hin[0].get('kind') == 'VarDecl' else '...'
+                out_.append('} catch %s {' % ex_t)
+                sk(hin[-1], out_)
+            out_.append('}')
+        elif k == 'SwitchStmt':
+            out_.append('switch %s {' % rx(inner[0]))
+            sk(inner[-1], out_)
+            out_.append('}')
+        elif k == 'CaseStmt':
+            out_.append('case %s' % rx(inner[0]))
+            sk(inner[-1], out_)
+        elif k == 'DefaultStmt':
+            out_.append('default')
+            sk(inner[-1], out_)
+        else:
+            out_.append(rx(st))
+
+    hasbody = lambda n: any(c.get('kind') == 'CompoundStmt' for c in n.get('inner', []))
+
+    dumps = {}
+
+    def decl(src, filt, kind, name, pred=None):
+        found = []
+
+        def w(n):
+            if not isinstance(n, dict):
+                return
+            if n.get('kind') == kind and n.get('name') == name and hasbody(n) and (pred is None or pred(n)):
+                found.append(n)
+            for c in n.get('inner', []) or []:
+                w(c)
+        if (src, filt) not in dumps:
+            dumps[(src, filt)] = cxx2v.run_clang(src, filt, vlib.repo_incs(), 'c++11')
+        for o in dumps[(src, filt)]:
+            w(o)
+        ids = {}
+        for f in found:
+            ids.setdefault(f['id'], f)
+        if len(ids) != 1:
+            raise U('control skeleton: %d definitions of %s (filter %s)' % (len(ids), name, filt))
+        return list(ids.values())[0]
+
+    def body_of(fd):
+        return [c for c in fd['inner'] if c.get('kind') == 'CompoundStmt'][0]
+    ty = lambda sub: (lambda n: sub in n.get('type', {}).get('qualType', ''))
+    XSS_CORE = ['split_to_parts', 'parse_html_entity', 'validate_property_value', 'parse_properties', 'parse_html_tag', 'parse_part',
+                'validate_nesting', 'validate_entry_by_rules']
+    try:
+        import concurrent.futures
+        want = [(enc_src, 'valid'), (enc_src, 'encoding::is_'), (xss_src, 'xss::validate'), (xss_src, 'xss::filter')] + [(xss_src, n) for n in XSS_CORE]
+        with concurrent.futures.ThreadPoolExecutor(len(want)) as ex_:
+            futs = [(w_, ex_.submit(cxx2v.run_clang, w_[0], w_[1], vlib.repo_incs(), 'c++11')) for w_ in want]
+            for w_, fu in futs:
+                dumps[w_] = fu.result()
+        items = []
+        for label, fd in (
+                ('utf8_valid', decl(enc_src, 'valid', 'FunctionDecl', 'utf8_valid', ty('const char *'))),
+                ('utf8::validate', decl(enc_src, 'valid', 'FunctionDecl', 'validate', ty('(const char *, const char *, size_t &, bool)'))),
+                ('validate_or_filter_utf8', decl(enc_src, 'valid', 'FunctionDecl', 'validate_or_filter_utf8')),
+                ('validate_or_filter_single_byte_charset', decl(enc_src, 'valid', 'FunctionDecl', 'validate_or_filter_single_byte_charset')),
+                ('encoding::valid', decl(enc_src, 'valid', 'FunctionDecl', 'valid', ty('(const std::string &, const char *, const char *, size_t &)'))),
+                ('encoding::validate_or_filter', decl(enc_src, 'valid', 'FunctionDecl', 'validate_or_filter')),
+                ('is_ascii_compatible', decl(enc_src, 'encoding::is_', 'FunctionDecl', 'is_ascii_compatible')),
+                ('is_utf8', decl(enc_src, 'encoding::is_', 'FunctionDecl', 'is_utf8')),
+                ('validators_set::get', decl(enc_src, 'valid', 'CXXMethodDecl', 'get'))):
+            o_ = []
+            sk(body_of(fd), o_)
+            items.append((label, o_))
+        # xss.cpp: prologue = the statements before the declaration of `parsed`; epilogue of validate_and_filter_if_invalid = the last if statement
+        for label, name in (('xss::validate prologue', 'validate'), ('xss::validate_and_filter_if_invalid prologue', 'validate_and_filter_if_invalid')):
+            fd = decl(xss_src, 'xss::validate', 'FunctionDecl', name, ty('const char *, const char *, const cppcms::xss::rules &'))
+            stmts = [c for c in body_of(fd).get('inner', []) if isinstance(c, dict)]
+            cut = None
+            for i, st in enumerate(stmts):
+                if st.get('kind') == 'DeclStmt' and any(v.get('name') == 'parsed' for v in st.get('inner', [])):
+                    cut = i
+                    break
+            if cut is None:
+                raise U('control skeleton: %s: declaration of parsed not found' % name)
+            o_ = []
+            for st in stmts[:cut]:
+                sk(st, o_)
+            items.append((label, o_))
+            if name == 'validate_and_filter_if_invalid':
+                o2 = []
+                tailst = [st for st in stmts if st.get('kind') == 'IfStmt']
+                sk(tailst[-1], o2)
+                sk(stmts[-1], o2)
+                items.append(('xss::validate_and_filter_if_invalid epilogue', o2))
+        # the core of src/xss.cpp: tokeniser, entity / attribute / tag parsers, nesting, white-list look-up, and the whole of validate,
+        # validate_and_filter_if_invalid and both filter overloads
+        items2 = []
+        for name in XSS_CORE:
+            fd = decl(xss_src, name, 'FunctionDecl', name)
+            o_ = []
+            sk(body_of(fd), o_)
+            items2.append((name, o_))
+        for label, filt, name, pred in (('xss::validate', 'xss::validate', 'validate', ty('const char *, const char *, const cppcms::xss::rules &')),
+                                        ('xss::validate_and_filter_if_invalid', 'xss::validate', 'validate_and_filter_if_invalid', ty('const char *, const char *, const cppcms::xss::rules &')),
+                                        ('xss::filter(char const *)', 'xss::filter', 'filter', ty('(const char *, const char *, const cppcms::xss::rules &')),
+                                        ('xss::filter(std::string)', 'xss::filter', 'filter', ty('(const std::string &, const cppcms::xss::rules &'))):
+            fd = decl(xss_src, filt, 'FunctionDecl', name, pred)
+            o_ = []
+            sk(body_of(fd), o_)
+            items2.append((label, o_))
+        XSS_SKELETON['text'] = '\n'.join('== %s\n%s' % (l, '\n'.join(o_)) for l, o_ in items2) + '\n'
+        def q(t):
+            t = t.replace('"', "'").replace('\\', '/')
+            if not all(32 <= ord(ch) < 127 for ch in t):
+                raise U('control skeleton: unexpected character in %r' % t)
+            return '"%s"%%string' % t
+        lines = ['(* GENERATED by checks/C04.py (clang AST) from src/encoding.cpp, src/xss.cpp, private/encoding_validators.h, private/utf_iterator.h -- do not edit *)',
+                 'From Coq Require Import List String.', 'Import ListNotations.', '',
+                 'Definition g_c04_control : list (string * list string) :=\n  [%s].\n' % ';\n   '.join(
+                     '(%s,\n    [%s])' % (q(l), ';\n     '.join(q(t) for t in o_)) for l, o_ in items),
+                 'Definition g_c04_xss_control : list (string * list string) :=\n  [%s].\n' % ';\n   '.join(
+                     '(%s,\n    [%s])' % (q(l), ';\n     '.join(q(t) for t in o_)) for l, o_ in items2)]
+        txt, err = '\n'.join(lines) + '\n', []
+    except cxx2v.Unsupported as e:
+        txt = '(* translator failed: %s *)\nDefinition broken : False := I.\n' % str(e).replace('*)', '* )').replace('"', "'")
+        err = [('Gen_C04ctl', str(e))]
+    with vlib.Lock('gen-Gen_C04ctl'):
+        vlib.write_if_changed(out, txt)
+    return err
 
 
 # ------------------------------------------------------------------------------------------------
@@ -888,6 +1502,212 @@ PIECES2 = [b'<p a a >', b'<p a A >', b'<i class="k" class="k">', b'<i class="k" 
            b'<input disabled >', b'<input disabled="disabled"/>', b'<input size="12" checked />']
 
 
+# ------------------------------------------------------------------------------------------------
+# encoding boundary material (the clause "validation never accepts text that is not well-formed in the declared encoding")
+# ------------------------------------------------------------------------------------------------
+def u8pattern(cp, n):
+    """cp written with the n-byte UTF-8 bit pattern (n = 1..6): the shortest form when n is the RFC 3629 width of cp, an
+    over-long form when n is larger; n = 5, 6 and values above U+10FFFF are the forms RFC 3629 abolished"""
+    if n == 1:
+        return bytes([cp & 0x7F])
+    out = []
+    for _ in range(n - 1):
+        out.append(0x80 | (cp & 0x3F))
+        cp >>= 6
+    out.append(({2: 0xC0, 3: 0xE0, 4: 0xF0, 5: 0xF8, 6: 0xFC}[n] | cp) & 0xFF)
+    return bytes(reversed(out))
+
+
+def u8width(cp):
+    return 1 if cp < 0x80 else 2 if cp < 0x800 else 3 if cp < 0x10000 else 4 if cp < 0x200000 else 5 if cp < 0x4000000 else 6
+
+
+# both sides of every boundary of the encoding: width classes, controls, surrogates, non-characters, the end of Unicode
+U8_BOUND_CPS = [0x00, 0x08, 0x09, 0x0A, 0x0D, 0x1F, 0x20, 0x22, 0x26, 0x3C, 0x3E, 0x41, 0x7E, 0x7F, 0x80, 0x85, 0x9F, 0xA0, 0xFF, 0x100,
+                0x7FF, 0x800, 0xFFF, 0x1000, 0xCFFF, 0xD000, 0xD7FF, 0xD800, 0xDBFF, 0xDC00, 0xDFFF, 0xE000, 0xFFFD, 0xFFFE, 0xFFFF,
+                0x10000, 0x3FFFF, 0x40000, 0xFFFFF, 0x100000, 0x10FFFF, 0x110000, 0x13FFFF, 0x140000, 0x1FFFFF]
+
+
+def u8_boundary_sequences():
+    """[(label, bytes)]: shortest forms, every over-long form, truncations, stray trail bytes, bad trail bytes"""
+    out = []
+    for cp in U8_BOUND_CPS:
+        w = u8width(cp)
+        out.append(('shortest U+%04X' % cp, u8pattern(cp, w)))
+        for n in range(w + 1, 5):
+            out.append(('overlong%d U+%04X' % (n, cp), u8pattern(cp, n)))
+        if cp in (0x00, 0x3C, 0x7F, 0x80, 0x7FF, 0x800, 0xFFFF, 0x10000, 0x10FFFF, 0x110000):
+            for n in (5, 6):
+                out.append(('overlong%d U+%04X' % (n, cp), u8pattern(cp, n)))
+    for label, cp in (('U+00E9', 0xE9), ('U+07FF', 0x7FF), ('U+0800', 0x800), ('U+20AC', 0x20AC), ('U+FFFD', 0xFFFD), ('U+10000', 0x10000),
+                      ('U+1F600', 0x1F600), ('U+10FFFF', 0x10FFFF)):
+        full = u8pattern(cp, u8width(cp))
+        for k in range(1, len(full)):
+            out.append(('truncated%d/%d %s' % (k, len(full), label), full[:k]))
+    for b in (0x80, 0x8F, 0x90, 0x9F, 0xA0, 0xBF):
+        out.append(('stray trail %02X' % b, bytes([b])))
+        out.append(('stray trails %02X %02X' % (b, b), bytes([b, b])))
+    for b in (0xC0, 0xC1, 0xF5, 0xF8, 0xFC, 0xFE, 0xFF):
+        out.append(('invalid lead %02X' % b, bytes([b])))
+        out.append(('invalid lead %02X + trail' % b, bytes([b, 0x80])))
+    for bad in (0x00, 0x20, 0x22, 0x26, 0x3B, 0x3C, 0x3E, 0x7F, 0xC0, 0xC3, 0xE0, 0xFF):
+        out.append(('2-byte lead + %02X' % bad, bytes([0xC3, bad])))
+        out.append(('3-byte lead + %02X' % bad, bytes([0xE2, bad, 0xAC])))
+        out.append(('3-byte lead, trail, %02X' % bad, bytes([0xE2, 0x82, bad])))
+        out.append(('4-byte lead + %02X' % bad, bytes([0xF0, bad, 0x98, 0x80])))
+        out.append(('4-byte lead, trail, %02X' % bad, bytes([0xF0, 0x9F, bad, 0x80])))
+        out.append(('4-byte lead, 2 trails, %02X' % bad, bytes([0xF0, 0x9F, 0x98, bad])))
+    for lead, lo, hi in ((0xE0, 0x9F, 0xA0), (0xED, 0x9F, 0xA0), (0xF0, 0x8F, 0x90), (0xF4, 0x8F, 0x90)):
+        for second in (0x7F, 0x80, lo, hi, 0x9F, 0xBF, 0xC0):
+            for t in (0x80, 0xBF):
+                out.append(('second byte range %02X %02X' % (lead, second), bytes([lead, second] + [t] * (2 if lead >= 0xF0 else 1))))
+    seen, res = set(), []
+    for l, b in out:
+        if b not in seen:
+            seen.add(b)
+            res.append((l, b))
+    return res
+
+
+U8_GRID_LEADS = [0x7F, 0x80, 0xBF, 0xC0, 0xC1, 0xC2, 0xC3, 0xDF, 0xE0, 0xE1, 0xEC, 0xED, 0xEE, 0xEF, 0xF0, 0xF1, 0xF3, 0xF4, 0xF5, 0xF7, 0xF8, 0xFB,
+                 0xFC, 0xFD, 0xFE, 0xFF]
+U8_GRID_SECOND = [0x00, 0x3C, 0x7F, 0x80, 0x8F, 0x90, 0x9F, 0xA0, 0xBF, 0xC0, 0xFF]
+U8_GRID_REST = [0x7F, 0x80, 0xBF, 0xC0]
+
+
+def u8_grid():
+    """lead byte classes x second byte ranges x trail byte boundaries, lengths 2..4 (all the case splits of RFC 3629 section 4)"""
+    for a in U8_GRID_LEADS:
+        for b in U8_GRID_SECOND:
+            yield bytes([a, b])
+            for c in U8_GRID_REST:
+                yield bytes([a, b, c])
+                for d in U8_GRID_REST:
+                    yield bytes([a, b, c, d])
+
+
+# where the material is placed: in text, at the end of input, before '<', before '&', inside (and at the cut-off end of) an
+# attribute value, inside names, entities, comments
+ENC_CONTEXTS = [
+    ('text', lambda s: b'ab' + s + b'cd'),
+    ('alone', lambda s: s),
+    ('end-of-input', lambda s: b'<b>x</b>' + s),
+    ('before-lt', lambda s: s + b'<b>x</b>'),
+    ('between-tags', lambda s: b'<b>' + s + b'</b>'),
+    ('before-amp', lambda s: b'x' + s + b'&amp;y'),
+    ('after-entity', lambda s: b'&lt;' + s),
+    ('attr-value', lambda s: b'<a title="' + s + b'">x</a>'),
+    ('attr-value-single-quote', lambda s: b"<a title='x" + s + b"y'>x</a>"),
+    ('attr-value-cut', lambda s: b'<a title="x' + s),
+    ('attr-value-then-lt', lambda s: b'<a title="x' + s + b'<b>'),
+    ('uri-value', lambda s: b'<a href="http://h/' + s + b'">x</a>'),
+    ('tag-name', lambda s: b'<a' + s + b'>x</a>'),
+    ('attr-name', lambda s: b'<a t' + s + b'="x">x</a>'),
+    ('closing-tag', lambda s: b'<b>x</' + s + b'b>'),
+    ('entity-name', lambda s: b'&am' + s + b'p;'),
+    ('entity-alone', lambda s: b'&' + s + b';'),
+    ('numeric-entity', lambda s: b'&#' + s + b'65;'),
+    ('comment', lambda s: b'<!-- ' + s + b' -->'),
+    ('cut-tag', lambda s: b'x<a ' + s),
+    ('cut-entity', lambda s: b'x&' + s),
+]
+
+# every name of the validators_set table (src/encoding.cpp), in spellings that the comparator identifies
+SB_NAMES = ['latin1', 'ISO-8859-1', 'iso8859-2', 'ISO_8859-3', 'iso-8859-4', 'ISO-8859-5', 'ISO-8859-6', 'iso-8859-7', 'ISO-8859-8', 'iso-8859-9',
+            'ISO-8859-10', 'iso-8859-11', 'ISO-8859-13', 'iso-8859-14', 'ISO-8859-15', 'iso-8859-16',
+            'windows-1250', 'Windows-1251', 'windows-1252', 'WINDOWS-1253', 'windows-1255', 'windows-1256', 'windows-1257', 'windows-1258',
+            'cp1250', 'CP1251', 'cp1252', 'cp1253', 'cp1255', 'cp1256', 'cp1257', 'cp1258', 'koi8-r', 'KOI8-U', 'US-ASCII', 'ascii']
+# one name per validator body of private/encoding_validators.h
+SB_KINDS = ['US-ASCII', 'ISO-8859-1', 'ISO_8859-3', 'ISO-8859-6', 'iso-8859-7', 'ISO-8859-8', 'iso-8859-11', 'windows-1250', 'Windows-1251',
+            'windows-1252', 'WINDOWS-1253', 'windows-1255', 'windows-1256', 'windows-1257', 'windows-1258', 'koi8-r']
+
+
+def gen_encoding_cases(ctx, fixed):
+    rng = ctx.rng
+    cases = []
+    full = fixed[0].tags
+    fullh = fixed[1].tags
+    u8x = RuleSet('x', 1, 1, 'UTF-8', ['nbsp'], FUNS, full)
+    u8h = RuleSet('h', 1, 1, 'utf8', ['nbsp'], FUNS, fullh)
+    u8n = RuleSet('x', 0, 0, 'Utf_8', [], [], [])
+    seqs = [b for _, b in u8_boundary_sequences()]
+    # (a) every boundary sequence in every context, xhtml and html, no replacement / '?'
+    for s in seqs:
+        for cname, cf in ENC_CONTEXTS:
+            d = cf(s)
+            cases.append(u8x.case(d, 0))
+            cases.append(u8h.case(d, 63))
+        cases.append(u8n.case(s, 0))
+        cases.append(u8n.case(b'x' + s + b'y', 88))
+    # (b) two boundary sequences next to each other / separated by markup characters (a wrongly consumed byte shifts the next one)
+    for _ in range(ctx.scale(3000, 40000)):
+        a, b = rng.choice(seqs), rng.choice(seqs)
+        mid = rng.choice([b'', b'', b'<', b'>', b'&', b'"', b';', b'x', b'<b>', b'&amp;'])
+        cname, cf = rng.choice(ENC_CONTEXTS)
+        cases.append(rng.choice([u8x, u8h]).case(cf(a + mid + b), rng.choice([0, 0, 63, 32, 60, 38])))
+    # (c) the grid of lead / second / trail byte classes: in text always, in the other contexts sampled (thorough: more)
+    grid = list(u8_grid())
+    for s in grid:
+        if ctx.quick() and len(s) == 4 and rng.random() < 0.5:
+            continue
+        cases.append(u8x.case(b'a' + s + b'z', 0))
+    for _ in range(ctx.scale(5000, 120000)):
+        s = rng.choice(grid)
+        cname, cf = rng.choice(ENC_CONTEXTS)
+        cases.append(rng.choice([u8x, u8h]).case(cf(s), rng.choice([0, 63])))
+    if not ctx.quick():
+        # every two byte sequence that starts with a non-ASCII byte, and every byte after every lead byte class
+        for a in range(0x80, 0x100):
+            for b in range(0x100):
+                cases.append(u8n.case(bytes([a, b])))
+    for a in range(0x100):
+        cases.append(u8n.case(bytes([a])))
+        cases.append(u8x.case(b'<a title="' + bytes([a]) + b'">x</a>'))
+    # (d) single byte code pages: every byte under every validator body (thorough: every table name), in text and in an attribute value
+    sb_tags = [('a', 3, [('title', 'f0'), ('href', 'f1')]), ('b', 1, [])]
+    names = SB_KINDS if ctx.quick() else SB_NAMES
+    for nm in names:
+        rs = RuleSet(rng.choice('xh'), 1, 1, nm, [], FUNS, sb_tags)
+        for a in range(0x100):
+            cases.append(rs.case(b'a' + bytes([a]) + b'b', 0))
+            if a >= 0x7F or a < 0x20 or not ctx.quick():
+                cases.append(rs.case(b'<a title="' + bytes([a]) + b'">x</a>', 63))
+    if ctx.quick():
+        # the other spellings / aliases of the table (the name comparator and the table decide which validator runs): the upper half
+        for nm in SB_NAMES:
+            if nm in SB_KINDS:
+                continue
+            rs = RuleSet('x', 1, 1, nm, [], FUNS, sb_tags)
+            for a in range(0x7F, 0x100):
+                cases.append(rs.case(b'a' + bytes([a]) + b'b', 0))
+    # names that are NOT in the table although they look like table names (must take the conversion path or fail, never a wrong validator)
+    for nm in ('windows-1254', 'cp1254', 'latin2', 'koi8'):     # (names iconv does not know make the library throw invalid_charset_error: not a case)
+        rs = RuleSet('x', 1, 1, nm, [], FUNS, sb_tags)
+        for s_ in (b'abc', b'a\x81b', b'a\xe9b', b'<b>\xff</b>', b'\xc3\xa9', b'a\x7fb'):
+            cases.append(rs.case(s_, 0))
+    for _ in range(ctx.scale(1500, 30000)):
+        nm = rng.choice(SB_NAMES)
+        rs = RuleSet(rng.choice('xh'), 1, 1, nm, [], FUNS, sb_tags)
+        s = bytes(rng.choice([rng.randrange(0x7F, 0x100), rng.randrange(0x100), rng.choice(b'<>&;"a ')]) for _ in range(rng.randrange(1, 6)))
+        cname, cf = rng.choice(ENC_CONTEXTS)
+        cases.append(rs.case(cf(s), rng.choice([0, 63, 32])))
+    # (e) UTF-16 / UTF-32 (conversion path): lone surrogates, controls, odd length, around markup
+    for enc, codec, unit in (('UTF-16LE', 'utf-16-le', 2), ('UTF-16BE', 'utf-16-be', 2), ('UTF-32LE', 'utf-32-le', 4)):
+        rs = RuleSet('x', 1, 1, enc, ['nbsp'], FUNS, full)
+        order = 'little' if codec.endswith('le') else 'big'
+        units = [0x41, 0x7F, 0x80, 0x9F, 0xA0, 0x1F, 0x09, 0xD7FF, 0xD800, 0xDBFF, 0xDC00, 0xDFFF, 0xE000, 0xFFFE, 0xFFFF, 0x3C, 0x26]
+        if unit == 4:
+            units += [0x10000, 0x10FFFF, 0x110000, 0xFFFFFFFF]
+        mats = [u.to_bytes(unit, order) for u in units]
+        mats += [a + b for a in mats[7:12] for b in mats[7:12]] if unit == 2 else []
+        for m_ in mats:
+            for pre, post in ((b'', b''), ('<b>x</b>'.encode(codec), b''), (b'', '<b>x</b>'.encode(codec)),
+                              ('<a title="'.encode(codec), '">x</a>'.encode(codec)), ('a'.encode(codec), '&amp;'.encode(codec))):
+                cases.append(rs.case(pre + m_ + post, 0))
+                cases.append(rs.case(pre + m_[:-1] + post, 0))
+    return cases
+
+
 def gen_cases(ctx):
     rng = ctx.rng
     cases = []
@@ -1003,6 +1823,8 @@ def gen_cases(ctx):
             elif k == 1 and raw:
                 raw = raw[:-1]
             cases.append(rs.case(raw, rng.choice([0, 63])))
+    # 11. encoding boundary material
+    cases.extend(gen_encoding_cases(ctx, fixed))
     # 6. long inputs
     for ln in ([200, 1000] if ctx.quick() else [200, 1000, 5000]):
         for rs in fixed[:2]:
@@ -1020,39 +1842,61 @@ WS = b' \t\r\n\x0c'
 
 
 OBSERVED = {}
-SINGLE_BYTE = {'iso-8859-1': 'iso8859_1', 'latin1': 'iso8859_1', 'iso-8859-2': 'iso8859_2', 'iso-8859-3': 'iso8859_3', 'iso-8859-6': 'iso8859_6',
-               'iso-8859-7': 'iso8859_7', 'iso-8859-8': 'iso8859_8', 'iso-8859-11': 'iso8859_11', 'iso-8859-15': 'iso8859_15',
-               'windows-1250': 'cp1250', 'windows-1251': 'cp1251', 'cp1251': 'cp1251', 'windows-1252': 'cp1252', 'windows-1253': 'cp1253',
-               'windows-1254': 'cp1254', 'windows-1255': 'cp1255', 'windows-1256': 'cp1256', 'windows-1257': 'cp1257', 'windows-1258': 'cp1258',
-               'koi8-r': 'koi8_r'}
 
 
-def strictly_decodable(enc, data):
-    """independent well-formedness test for the encodings whose definition leaves no room for interpretation;
-    None = no opinion"""
-    e = enc.lower().replace('_', '-')
-    if e in ('utf-8', 'utf8'):
+def norm_enc(name):
+    """the comparison key of cppcms::encoding (encodings_comparator): letters and digits only, lower case"""
+    return re.sub(r'[^a-z0-9]', '', name.lower())
+
+
+# names of the validators_set table of src/encoding.cpp -> python codec whose published table is the independent reference
+PY_CODEC = {'latin1': 'iso8859_1', 'iso88591': 'iso8859_1', 'iso88592': 'iso8859_2', 'iso88593': 'iso8859_3', 'iso88594': 'iso8859_4',
+            'iso88595': 'iso8859_5', 'iso88596': 'iso8859_6', 'iso88597': 'iso8859_7', 'iso88598': 'iso8859_8', 'iso88599': 'iso8859_9',
+            'iso885910': 'iso8859_10', 'iso885911': 'iso8859_11', 'iso885913': 'iso8859_13', 'iso885914': 'iso8859_14',
+            'iso885915': 'iso8859_15', 'iso885916': 'iso8859_16',
+            'windows1250': 'cp1250', 'windows1251': 'cp1251', 'windows1252': 'cp1252', 'windows1253': 'cp1253', 'windows1255': 'cp1255',
+            'windows1256': 'cp1256', 'windows1257': 'cp1257', 'windows1258': 'cp1258',
+            'cp1250': 'cp1250', 'cp1251': 'cp1251', 'cp1252': 'cp1252', 'cp1253': 'cp1253', 'cp1255': 'cp1255', 'cp1256': 'cp1256',
+            'cp1257': 'cp1257', 'cp1258': 'cp1258', 'koi8r': 'koi8_r', 'koi8u': 'koi8_u'}
+WIDE = {'utf16le': 'utf-16-le', 'utf16be': 'utf-16-be', 'utf32le': 'utf-32-le', 'utf32be': 'utf-32-be'}
+
+
+def html_safe_cp(cp):
+    """the control character rule cppcms applies to user text: no C0 control other than tab / LF / CR, not DEL, no C1 control"""
+    return (cp >= 0x20 or cp in (9, 10, 13)) and cp != 0x7F and not (0x80 <= cp <= 0x9F)
+
+
+def wellformed(enc, data):
+    """INDEPENDENT judgement (nothing of /repo is asked): is `data` well-formed text in the declared encoding?
+    UTF-8: python's strict decoder (RFC 3629: shortest form, no surrogates, <= U+10FFFF, nothing truncated) and no forbidden
+    control character; US-ASCII: 0x20..0x7E, tab, LF, CR; single byte code pages: every byte defined by the published table
+    (python codec) and no C0 control / DEL, for the ISO-8859 family no byte 0x80..0x9F (C1); UTF-16 / UTF-32: strict decoder and
+    no forbidden control character.  None = no opinion (multi-byte legacy encodings whose tables differ between vendors)."""
+    e = norm_enc(enc)
+    if e == 'utf8':
         try:
-            data.decode('utf-8', 'strict')
+            u = data.decode('utf-8', 'strict')
+        except UnicodeDecodeError:
+            return False
+        return all(html_safe_cp(ord(ch)) for ch in u)
+    if e in ('usascii', 'ascii'):
+        return all(0x20 <= c <= 0x7E or c in (9, 10, 13) for c in data)
+    if e in PY_CODEC:
+        iso = e.startswith('iso') or e == 'latin1'
+        for c in data:
+            if (c < 0x20 and c not in (9, 10, 13)) or c == 0x7F or (iso and 0x80 <= c <= 0x9F):
+                return False
+        try:
+            data.decode(PY_CODEC[e], 'strict')
             return True
         except UnicodeDecodeError:
             return False
-    if e in ('us-ascii', 'ascii'):
-        return all(c < 0x80 for c in data)
-    if e in SINGLE_BYTE:
-        # code pages: a byte that the published table leaves undefined is never well-formed (checked once against the
-        # unchanged tree: cppcms accepts no byte that the python table leaves undefined, for all of these)
+    if e in WIDE:
         try:
-            data.decode(SINGLE_BYTE[e], 'strict')
-            return True
+            u = data.decode(WIDE[e], 'strict')
         except UnicodeDecodeError:
             return False
-    if e in ('utf-16le', 'utf-16be', 'utf-32le', 'utf-32be'):
-        try:
-            data.decode(e, 'strict')
-            return True
-        except UnicodeDecodeError:
-            return False
+        return all(html_safe_cp(ord(ch)) for ch in u)
     return None
 
 
@@ -1289,9 +2133,15 @@ def oracle(case, out):
     if o['v'] == '1' and (rm != x or es != x):
         return ('valid-input-changed', 'input validates but the filter changed it')
     if R['enc'] != '-':
-        for name, text, ok in (('input', x, o['v']), ('remove_invalid output', rm, o['vrm']), ('escape_invalid output', es, o['ves'])):
-            if ok == '1' and strictly_decodable(R['enc'], text) is False:
-                return ('validate-accepts-ill-formed-encoding', 'validate() accepts the %s although it is not well-formed %s' % (name, R['enc']))
+        # well-formedness in the declared encoding, judged without asking the implementation: whatever validate() accepts and
+        # whatever filter() returns (valid or not, either method) must be well-formed
+        if o['v'] == '1' and wellformed(R['enc'], x) is False:
+            return ('validate-accepts-ill-formed-encoding', 'validate() accepts the input although it is not well-formed %s%s' % (
+                R['enc'], ' (and filter() returns it unchanged)' if rm == x else ''))
+        for name, text, ok in (('remove_invalid', rm, o['vrm']), ('escape_invalid', es, o['ves'])):
+            if wellformed(R['enc'], text) is False:
+                return ('filter-output-ill-formed-encoding', 'the %s output of filter() is not well-formed %s%s' % (
+                    name, R['enc'], ' (validate() accepts it)' if ok == '1' else ''))
     if R['enc'] == '-' and o['v'] != '1':
         # without an encoding filter, remove_invalid only deletes and escape_invalid only rewrites < > & " of deleted parts
         it = iter(x)
@@ -1300,6 +2150,11 @@ def oracle(case, out):
         it = iter(es)
         if len(es) < len(x) or not all(c in it for c in rm):
             return ('escape-output-lost-text', 'escape_invalid output does not contain the text kept by remove_invalid / is shorter than the input')
+    if R['enc'] != '-' and wellformed(R['enc'], b'a') is not None and norm_enc(R['enc']) not in WIDE and f.get('repl', '0') == '0' and o['v'] != '1':
+        # a byte-oriented encoding with a built-in validator and no replacement character: the encoding filter and the markup filter only delete
+        it = iter(x)
+        if not all(c in it for c in rm):
+            return ('remove-output-not-a-subsequence', 'remove_invalid output (encoding %s, no replacement character) is not a subsequence of the input' % R['enc'])
     for name, text, ok in (('remove_invalid', rm, o['vrm']), ('escape_invalid', es, o['ves'])):
         if R['enc'] in NONASCII:
             # the markup is looked for in the decoded text (python codec); undecodable output: no opinion unless the
@@ -1323,8 +2178,12 @@ def oracle(case, out):
 
 
 def nontrivial(case, out):
-    x = unhex(fields_of(case).get('in', '-'))
-    return any(c in x for c in b'<>&')
+    f = fields_of(case)
+    x = unhex(f.get('in', '-'))
+    if any(c in x for c in b'<>&'):
+        return True
+    # with a declared encoding: text that exercises the encoding validator beyond printable ASCII
+    return f.get('enc', '-') != '-' and any(c >= 0x7F or (c < 0x20 and c not in (9, 10, 13)) for c in x)
 
 
 def classify(case, out):
@@ -1398,9 +2257,32 @@ def differential2(ctx, cases, exe, mexe):
 
 
 def run(ctx):
-    errs = vlib.gen_coq(GEN) + gen_extra()
+    # the translator front end is one clang run per function: run the independent generation jobs side by side (subprocesses),
+    # and compile the harness meanwhile
+    import concurrent.futures
+    with concurrent.futures.ThreadPoolExecutor(12) as ex:
+        jobs = [ex.submit(vlib.gen_coq, {n: spec}) for n, spec in GEN.items()] + [ex.submit(gen_extra), ex.submit(gen_next), ex.submit(gen_enc), ex.submit(gen_control)]
+        hjob = ex.submit(vlib.build_harness, 'C04_xss', ['C04_xss.cpp'])
+        errs = []
+        for j in jobs:
+            errs += j.result()
+        exe, herr = hjob.result()
     for n, e in errs:
         ctx.broke('translator cxx2v failed on %s (tie to source broken)' % n, e)
+    # the statement skeleton of the core of src/xss.cpp (tokeniser, parsers, nesting, white-list look-up, validate, filter): compared with the
+    # one recorded when the hand model was last read against the code.  Informative only (a note, never an alarm): the behaviour of these
+    # functions is tied by correspondence, their leafs by Link.v
+    skel_file = os.path.join(vlib.VERIF, 'docs', 'C04_xss_skeleton.txt')
+    if 'text' in XSS_SKELETON and os.path.exists(skel_file):
+        rec = open(skel_file).read()
+        if rec == XSS_SKELETON['text']:
+            ctx.coverage['xss_core_skeleton'] = 'as recorded in docs/C04_xss_skeleton.txt (%d lines): the hand model was written from this text' % rec.count('\n')
+        else:
+            import difflib
+            d = [l for l in difflib.unified_diff(rec.split('\n'), XSS_SKELETON['text'].split('\n'), 'recorded', 'current', lineterm='', n=0)][:40]
+            ctx.coverage['xss_core_skeleton'] = 'CHANGED since it was recorded (informative): ' + ' | '.join(d)[:1500]
+            ctx.notes.append('the statement skeleton of the core of src/xss.cpp differs from docs/C04_xss_skeleton.txt: the hand model (coq/C04/Defs.v) should be re-read '
+                             'against the changed functions (correspondence and the oracle decide about behaviour): ' + ' | '.join(d)[:800])
     res = vlib.coq_props('C04')
     ctx.proof(res)
     ctx.coverage['trusted_base'] = [
@@ -1410,17 +2292,18 @@ def run(ctx):
         'harness/C04_xss.cpp, ocaml/C04_driver.ml, checks/C04.py (generators, oracle table plumbing, independent python tokenizer)',
         'hand model of the loops of src/xss.cpp (coq/C04/Defs.v), tied by correspondence only',
         'regex engine (PCRE via booster::regex): abstract, answered by the real code during correspondence (regex validators and the scheme expression of URI validators); class uri_parser is modelled (coq/C04/DefsU.v), its one-byte matchers, alternatives and entry points are tied by Link.v',
-        'cppcms::encoding::valid / validate_or_filter: abstract, answered by the real code during correspondence (property C14)',
+        'cppcms::encoding::valid / validate_or_filter / is_ascii_compatible: modelled (coq/C14/Defs.v through coq/C04/DefsE.v), computed by the extracted model during correspondence (the answers of the real functions printed by the harness are not given to the model); leafs utf::valid, is_trail, trail_length, width tied by coq/C04/LinkE.v over coq/gen/Gen_C04utf.v; decoder switch, filter loops, validators_set table, single byte loop bodies: by correspondence',
+        'coq/C14/Spec.v (transcription of the RFC 3629 section 4 ABNF and section 3 table) as the meaning of well-formed UTF-8; python strict decoders and code page tables in the oracle',
         'booster::locale::conv::to_utf / from_utf (iconv) for the encodings that are not ASCII compatible: abstract, answered by the real code']
     ctx.assumptions = [
         'the validator functors (regex, URI, user supplied) are pure functions of the attribute value',
-        'encoding::valid and encoding::validate_or_filter agree on validity and the filtered text is valid (premises enc_agree, enc_vof_valid of the theorems that mention the encoding; property C14)',
-        'stability with an encoding: premise enc_ascii_compatible (the bytes & ; < > dquote are complete characters at every position, validity closed under concatenation) - true of UTF-8 and single byte code pages; for converted encodings premise conv_roundtrip (to_utf (from_utf u) = u)',
+        'sections 1-8 of Props.v keep the encoding validators abstract under the premises enc_agree, enc_vof_valid, enc_ascii_compatible; section 9 proves these premises for the concrete UTF-8 and single byte validators, so the theorems there have none of them',
+        'filter output well-formedness / stability with an encoding: the replacement character is absent (0) or itself acceptable (HTML-safe ASCII for UTF-8, a byte the code page accepts otherwise); for converted encodings premise conv_roundtrip (to_utf (from_utf u) = u)',
+        'single byte theorems: input bytes < 256 (bytes_ok) for the control character corollary',
         'stability: premise kind_compat / esc_entities_ok on the rule set, proved for every rule set the public API can build',
         'char is signed 8-bit on this target (x86-64), as clang reports']
-    exe, err = vlib.build_harness('C04_xss', ['C04_xss.cpp'])
     if not exe:
-        ctx.broke('harness build failed', err)
+        ctx.broke('harness build failed', herr)
         return
     mexe, err = vlib.build_model('C04', 'C04_driver.ml', 'c04m')
     if not mexe:
@@ -1437,10 +2320,11 @@ def run(ctx):
         'NUL) and single-byte mutations of them under 12 fixed + random rule sets (xhtml/html, tag kinds, repeated registrations of a tag / attribute, boolean/integer/regex/uri/absolute/'
         'relative attributes, comments and numeric entities on/off, encodings none/UTF-8/ISO-8859-x/windows-125x/koi8/ascii), replacement '
         'characters 0 ? space X < & > " ;; documents that validate and single structural damages of them; converted encodings UTF-16LE/BE, UTF-32LE, '
-        'Shift_JIS, EUC-JP, GBK with wide characters, stray bytes and truncation; URI attribute values: grammar-guided (scheme/authority/path/query/fragment parts, good and bad) and exhaustive short sequences of 13 URI symbols under the three URI validator kinds. A case is non-trivial when the input contains at least one of < > &; distinct = distinct case lines.')
+        'Shift_JIS, EUC-JP, GBK with wide characters, stray bytes and truncation; encoding boundary material (gen_encoding_cases): for UTF-8 every boundary code point (7F/80, 9F/A0, 7FF/800, FFFF/10000, D7FF/D800/DFFF/E000, FFFD/FFFE, 10FFFF/110000, 1FFFFF) in shortest form and in every over-long form incl. 5/6 byte forms, over-long < > & and quote, truncated sequences, stray trail bytes, invalid lead bytes, bad bytes at every trail position, the second-byte ranges of E0/ED/F0/F4 - each placed in 21 contexts (text, end of input, before <, before &, inside / at the cut end of an attribute value, URI value, tag / attribute / entity name, numeric entity, comment, cut tag ...) under an xhtml and an html rule set; pairs of such sequences; the grid lead class x second byte x trail bytes of lengths 2-4; every single byte; every byte under every single byte validator body (thorough: every table name) in text and in an attribute value; UTF-16/32 units (lone surrogates, controls, odd length); URI attribute values: grammar-guided (scheme/authority/path/query/fragment parts, good and bad) and exhaustive short sequences of 13 URI symbols under the three URI validator kinds. A case is non-trivial when the input contains at least one of < > &, or - with an encoding declared - a byte outside printable ASCII / tab / LF / CR; distinct = distinct case lines.')
     ctx.coverage['exhaustive'] = False
     ctx.coverage['exhaustive_parts'] = ['strings of length<=%d over 12 symbols' % ctx.scale(3, 5),
                                         'piece sequences of length<=%d (quick: half of the longest)' % ctx.scale(3, 4),
+                                        'every byte value as a one byte text under UTF-8 and under every single byte validator body; the UTF-8 boundary sequences x 21 contexts x 2 rule sets' + ('' if ctx.quick() else '; every 2 byte sequence starting with a non-ASCII byte under UTF-8; every table name of validators_set'),
                                         'URI attribute values: sequences of <=%d of 13 symbols (h 1 : / ? # @ %%41 . &amp; blank _ %%4) under the absolute-only, both and relative validators' % ctx.scale(3, 4)]
     pf = probe_parse_full()
     if pf == 'uri_reference':
